@@ -125,3 +125,33 @@ Example C27_nonvacuous :
   snd (run init cs) = [None; None; Some (mkproof 2 0 7 8); None; Some (mkproof 1004 0 9 10); None] /\
   start (fst (run init cs)) = Some 1002 /\ retained (fst (run init cs)) 2 0 = None.
 Proof. vm_compute. repeat split; reflexivity. Qed.
+
+(* ---------------- third round: the SCALE round trip of the stored records ---------------- *)
+From C27 Require Import Codec CodecProofs.
+
+(* What CheckEquivocation writes under slot_header_map ++ LE64 slot (scale([][]byte) of the
+   scale(headerAndSigner) entries; Codec.enc_stored) is decoded by the two-level Unmarshal at the
+   start of the next CheckEquivocation (Codec.dec_stored) to exactly the same list of (header,
+   signer) pairs: every header field, every digest item, the signer.  Any number of records and
+   digest items, any contents; wf_record = the fixed-width fields have their widths (32/32/32/4/32
+   bytes), the digest items are PreRuntime / Consensus / Seal, and no length reaches 2^536 (the
+   range of SCALE compact integers).  The compact codec and its round trip are coq/Scale's. *)
+Theorem C27_stored_round_trip : forall rs, Forall wf_record rs -> small (N.of_nat (length rs)) ->
+  dec_stored (enc_stored rs) = Some rs.
+Proof. exact stored_round_trip. Qed.
+Print Assumptions C27_stored_round_trip.
+
+(* equal encodings mean equal (header, signer): nothing of a header is lost in the table *)
+Theorem C27_record_encoding_injective : forall x y, wf_record x -> wf_record y ->
+  enc_record x = enc_record y -> x = y.
+Proof. exact enc_record_inj. Qed.
+Print Assumptions C27_record_encoding_injective.
+
+(* non-vacuity: the harness's headers 1 (PreRuntime digest), 2 (Seal digest), 5 (both) and 0 (none),
+   two signers: well-formed, and the stored value decodes back *)
+Example C27_codec_nonvacuous :
+  let l := [(1, 0); (2, 1); (5, 0); (0, 2)] in
+  dec_stored (stored_value l) = Some (map mk_record l) /\
+  length (stored_value l) = 689%nat /\
+  forallb (fun r => Nat.eqb (length (h_parent (fst r))) 32 && Nat.eqb (length (snd r)) 32) (map mk_record l) = true.
+Proof. vm_compute. repeat split; reflexivity. Qed.
